@@ -387,6 +387,16 @@ class Log(_Unary):
     meth = "log"
     dom = dict(lo=0, lo_strict=True)
 
+    def configs(self, tier):
+        # "precise": float64 operands in [1e-3, 1e-1], compared at double precision with the real guard constant in place
+        # (log(x + 1e-12) is log(x) to float32 rounding only)
+        return _Unary.configs(self, tier) + [{"a": [2], "precise": True}]
+
+    def inputs(self, args):
+        if args.get("precise"):
+            return [Inp("a", args["a"], lo=0.001, hi=0.1)]
+        return _Unary.inputs(self, args)
+
     def epsilon_zero(self):
         return True
 
